@@ -61,7 +61,7 @@ man = {
                  "kind_free_text": "explicit TLA+ specifications (spec/) checked with TLC; bound to the code by behaviour replay (TLC-generated behaviours stepped through the real objects by the Rust harness) and trace validation (recorded ndjson traces of the real code checked by Trace*.tla)"}],
     "checks": checks,
     "not_applicable": na,
-    "notes": "See DESIGN.md. ./check <id> rebuilds the harness binary it needs from /repo's working tree on every run.",
+    "notes": "See DESIGN.md. ./check <id> rebuilds the harness binary it needs from /repo's working tree on every run. Beyond the 51 listed properties the specification also covers subintent yield/resume (X01), Track and SubstateLocks validated on real engine executions through hooks H2/H3 (X02, X03), the royalty module (X04) and the metadata module (X05): `./check X01` .. `./check X05` (same contract, evidence/X0n.json); known findings are listed in known_findings.json.",
 }
 json.dump(man, open(os.path.join(ROOT, "MANIFEST.json"), "w"), indent=1)
 print("MANIFEST.json: %d checks, %d not claimed" % (len(checks), len(na)))
